@@ -301,7 +301,39 @@ def check_sequence(case, ctx):
                {"worst_err": float(err.max()), "budget_end": float(budget[-1]), "N": len(Q)}, route=r)
 
 
+def check_sequence_batch(case, ctx):
+    """A time-varying rate history through the batch constructors with every accelerometer sample null (pure dead reckoning): row t is the chain of
+    first-order steps driven by gyr[t] (the documented Q[t] = update(Q[t-1], gyr[t], acc[t])), each filter in its own attitude convention;
+    AngularRate's batch run is the chain of its own steps."""
+    import ahrs
+    F = ahrs.filters
+    q0, W, dt = case.p["q0"], case.p["W"], float(case.p["dt"])
+    n = len(W)
+    Z = np.zeros((n, 3))
+    Mg = np.tile(np.array([20.0, 3.0, -40.0]), (n, 1))
+    chain, chain_aqua = [q0], [q0]
+    for t in range(1, n):
+        chain.append(rq.qnormalize(chain[-1] + 0.5 * dt * rq.qmul(chain[-1], np.r_[0.0, W[t]])))
+        chain_aqua.append(rq.qnormalize(chain_aqua[-1] + 0.5 * dt * rq.qmul(np.r_[0.0, -W[t]], chain_aqua[-1])))
+    chain, chain_aqua = np.array(chain), np.array(chain_aqua)
+    for r, fn, ref in (("first-order/Madgwick.updateIMU", lambda: F.Madgwick(W.copy(), Z.copy(), q0=q0.copy(), Dt=dt).Q, chain),
+                       ("first-order/Mahony.updateIMU", lambda: F.Mahony(W.copy(), Z.copy(), q0=q0.copy(), Dt=dt).Q, chain),
+                       ("first-order/Mahony.updateMARG", lambda: F.Mahony(W.copy(), Z.copy(), Mg.copy(), q0=q0.copy(), Dt=dt).Q, chain),
+                       ("first-order/AQUA.updateIMU", lambda: F.AQUA(gyr=W.copy(), acc=Z.copy(), q0=q0.copy(), Dt=dt).Q, chain_aqua),
+                       ("first-order/AQUA.updateMARG", lambda: F.AQUA(gyr=W.copy(), acc=Z.copy(), mag=Mg.copy(), q0=q0.copy(), Dt=dt).Q, chain_aqua)):
+        out = call(fn)
+        if not ctx.returned(out, clause="no-exception[batch run, accelerometer null throughout]", route=r):
+            continue
+        Qb = np.asarray(out.value, float)
+        if ctx.ok("batch run gives one attitude per sample", Qb.shape == ref.shape, {"shape": list(Qb.shape)}, route=r):
+            d = np.minimum(np.abs(Qb - ref).max(axis=1), np.abs(Qb + ref).max(axis=1))
+            ctx.le("a batch run that dead-reckons throughout is the chain of first-order steps driven by gyr[t]", float(d.max()), 1e-13 * n, {"first_bad_row": int(np.argmax(d > 1e-13 * n)), "N": n},
+                   route=r)
+
+
 def check(case, ctx):
     {"const": check_const, "series": check_series, "step": check_step, "sequence": check_sequence}[case.route](case, ctx)
+    if case.route == "sequence":
+        check_sequence_batch(case, ctx)
     if case.route == "step":
         check_step_dt_history(case, ctx)
